@@ -129,6 +129,14 @@ func packZip(
 			return nil // skip it and continue the walk
 		}
 
+		// Files, dirs and symlinks are what this transmat can write (and read back: the unpack side refuses the rest).
+		//  Anything else would be hashed as what it is and stored as something else, a ware nobody could ever unpack.
+		switch fmeta.Type {
+		case fs.Type_File, fs.Type_Dir, fs.Type_Symlink:
+		default:
+			return Errorf(rio.ErrPackInvalid, "zip pack does not support files of type %v (%q): use a dev filter, or the tar format", fmeta.Type, fmeta.Name)
+		}
+
 		// Flatten time to seconds.  The zip header stores whole seconds only, and the hash
 		//  and the serial form must describe the same thing (as in the tar transmat).
 		fmeta.Mtime = fmeta.Mtime.Truncate(time.Second)
